@@ -4,8 +4,7 @@
    `trkc_step`): the subscriber callbacks may raise.
 
    reachable_any nattrs st : st is the state after ANY history, whatever the subscribers did -- also after operations
-   that were left by the exception of a subscriber (n_latest_tracks only needs the structural invariants, which every
-   state satisfies; Props/C13.v C13_structural_invariants).
+   that were left by the exception of a subscriber (Props/C13.v C13_invariants).
 
    mlu tr = (mmsi, last_updated).  sp_top_n n all r (Spec/TrackerSpec.v): r has min(n, |all|) elements with pairwise
    different MMSIs, all of them in `all`, and no element of `all` left out has a later last_updated than one in r. *)
